@@ -41,7 +41,11 @@ PROBE = None          # optional callable: a snapshot of harness-side state reco
 
 def _is_target(path) -> bool:
     try:
-        return isinstance(path, (str, bytes, os.PathLike)) and os.path.abspath(os.fsdecode(path)) == _TARGET
+        if not isinstance(path, (str, bytes, os.PathLike)):
+            return False
+        p = os.fsdecode(path)
+        # the target by the name it was given, or by the file that name resolves to (a tool may resolve a symbolic link itself and work on the real file)
+        return os.path.abspath(p) == _TARGET or os.path.realpath(p) == os.path.realpath(_TARGET)
     except Exception:
         return False
 
@@ -68,9 +72,13 @@ def _audit(event, args):
         if rec is not None:
             _OPEN_LOG.append((rec[0], rec[1], _EVENT_NO[0], PROBE() if PROBE is not None else None))
     except Exception:
-        pass
+        rec = None
+    if rec is not None and DENY_WRITE[0] and rec[0] == "open" and "w" in rec[1]:
+        # the operating system refuses: a read-only file / immutable flag / quota — the event is aborted with the error the caller would get
+        raise PermissionError(13, "Permission denied (injected)", _TARGET)
 
 
+DENY_WRITE = [False]     # while set, opening the target for writing is refused with PermissionError (a read-only file in a writable directory: replacing or removing it remains possible)
 _EVENT_NO = [0]
 FIRED = [False]      # whether the injected line fault of the last run_traced call was actually raised (it may have been swallowed by the library)
 
